@@ -123,7 +123,7 @@ func (r *rng) next() uint64 {
 	z = (z ^ (z >> 27)) * 0x94d049bb133111eb
 	return z ^ (z >> 31)
 }
-func (r *rng) intn(n int64) int64 { return int64(r.next() % uint64(n)) }
+func (r *rng) intn(n int64) int64        { return int64(r.next() % uint64(n)) }
 func (r *rng) rangeI(lo, hi int64) int64 { return lo + r.intn(hi-lo+1) }
 
 func i2s(v int64) string   { return fmt.Sprint(v) }
